@@ -103,7 +103,7 @@ def core(ctx, lib, basis, M, rmse, keys, counts, extra, Ts, label, perm):
             if not (got >= 0 and math.isfinite(got)):
                 ctx.fail('SE-negative-or-nonfinite', '[%s] get_%s_SE(%r) = %r' % (label, X, T, got))
                 return
-            if abs(got - want) > 1e-10 * abs(want) + 1e-100:   # (floor: squaring an RMSE below 1e-150 underflows)
+            if abs(got - want) > 1e-10 * abs(want) + 1e-60:   # (floor: squaring an RMSE below 1e-150 underflows)
                 ctx.fail('SE-not-the-quadratic-form:%s' % X, '[%s] get_%s_SE(%r) = %r, |RMSE|*sqrt(x\'Mx) = %r (x\'Mx=%r, RMSE=%r, mapping %s)'
                          % (label, X, T, got, want, q, r, mapping))
                 return
@@ -127,7 +127,7 @@ def core(ctx, lib, basis, M, rmse, keys, counts, extra, Ts, label, perm):
                     got = quiet(getattr(est_r, 'get_%s_SE' % X), T)
                     want = abs(quiet(getattr(rmse, 'get_' + X), T)) * math.sqrt(qr)
                     ctx.count()
-                    if abs(got - want) > 1e-10 * abs(want) + 1e-100:
+                    if abs(got - want) > 1e-10 * abs(want) + 1e-60:
                         ctx.fail('SE-not-the-quadratic-form:after-reassigned-counts', '[%s] after Estimate(%s), Estimate(%s).get_%s_SE(%r) = %r, reference %r'
                                  % (label, mapping, rot, X, T, got, want))
                         return
@@ -143,7 +143,7 @@ def core(ctx, lib, basis, M, rmse, keys, counts, extra, Ts, label, perm):
             for X in PROPS:
                 got = quiet(getattr(est_k, 'get_%s_SE' % X), T)
                 ctx.count()
-                if abs(got - abs(k) * base[X]) > 1e-10 * abs(k) * base[X] + 1e-100:   # (same underflow floor as above)
+                if abs(got - abs(k) * base[X]) > 1e-10 * abs(k) * base[X] + 1e-60:   # (same underflow floor as above)
                     ctx.fail('SE-scaling', '[%s] SE_%s(%r * x) = %r, |k| * SE(x) = %r' % (label, X, k, got, abs(k) * base[X]))
                     return
         except Exception as e:
@@ -206,7 +206,7 @@ def check_direction(ctx, case):
                      % (L, X, T, got, case['eig'], q, len(case['keys'])))
             return
         want = abs(quiet(getattr(rmse, 'get_' + X), T)) * math.sqrt(max(q, 0.0))
-        if abs(got - want) > 1e-8 * abs(want) + 1e-100:
+        if abs(got - want) > 1e-8 * abs(want) + 1e-60:
             ctx.fail('SE-not-the-quadratic-form:%s' % X, '[%s] get_%s_SE(%r) = %r, |RMSE|*sqrt(x\'Mx) = %r along a weak direction' % (L, X, T, got, want))
             return
 
